@@ -448,6 +448,79 @@ def _concrete_files():
     return msgs
 
 
+def _concrete_simulation():
+    """Concrete round trip of a Simulation with computed results (fields,
+    responses, misfit, gradient) and of a plain one, through real files."""
+    import emg3d
+    import warnings
+    warnings.filterwarnings('ignore')
+    msgs = []
+    tmp = tempfile.mkdtemp(prefix='c17s_')
+    try:
+        rng = np.random.default_rng(5)
+        grid = emg3d.TensorMesh([np.array([2., 1., 1., 2.])*100]*3,
+                                (0, 0, 0))
+        src = [emg3d.TxElectricDipole((250., 250., 250., 20., 10.))]
+        rec = [emg3d.RxElectricPoint((225., 350., 300., 0., 0.)),
+               emg3d.RxMagneticPoint((275., 325., 325., 30., 10.))]
+        model = emg3d.Model(grid, property_x=rng.uniform(
+            .5, 2, grid.shape_cells), mapping='Conductivity')
+        data = (rng.normal(size=(1, 2, 1))+1j*rng.normal(size=(1, 2, 1)))*1e-9
+        survey = emg3d.Survey(src, rec, [1.0], data=data, noise_floor=1e-10)
+        sim = emg3d.Simulation(
+            survey, model, gridding='same', max_workers=1, verb=-1,
+            receiver_interpolation='linear', tqdm_opts=False,
+            solver_opts=dict(tol=1e-8))
+        plain = sim.copy()
+        mis = float(sim.misfit)
+        grad = np.array(sim.gradient)
+        syn = sim.data.synthetic.data.copy()
+        ef = sim.get_efield('TxED-1', 'f-1').field.copy()
+        for ext in ('h5', 'npz', 'json'):
+            fn = os.path.join(tmp, f"sim.{ext}")
+            for what, s_ in (('all', sim), ('computed', sim),
+                             ('plain', plain)):
+                tag = f"{ext} what={what}"
+                try:
+                    s_.to_file(fn, what=what, verb=0)
+                    s2 = emg3d.Simulation.from_file(fn, verb=0)
+                except Exception as e:      # noqa
+                    msgs.append(f"{tag}: {e!r}"[:160])
+                    continue
+                if s2.model != s_.model or s2.survey.shape != \
+                        s_.survey.shape:
+                    msgs.append(f"{tag}: model/survey differ")
+                if what == 'plain':
+                    continue
+                try:
+                    m2 = s2.misfit
+                    if not isinstance(m2, (float, np.floating, np.ndarray)) \
+                            or not np.isclose(float(m2), mis, rtol=1e-12,
+                                              atol=0):
+                        msgs.append(f"{tag}: loaded misfit is {m2!r}, "
+                                    f"saved {mis!r}")
+                    if not np.array_equal(np.array(s2.gradient), grad):
+                        msgs.append(f"{tag}: gradient differs")
+                    if not np.array_equal(s2.data.synthetic.data, syn):
+                        msgs.append(f"{tag}: synthetic data differ")
+                    if not np.array_equal(
+                            s2.get_efield('TxED-1', 'f-1').field, ef):
+                        msgs.append(f"{tag}: electric field differs")
+                except Exception as e:      # noqa
+                    msgs.append(f"{tag}: using the loaded simulation raised "
+                                f"{e!r}"[:200])
+    finally:
+        shutil.rmtree(tmp, ignore_errors=True)
+    return msgs
+
+
+def concrete_simulation():
+    import contextlib
+    import io as _io
+    with contextlib.redirect_stdout(_io.StringIO()):
+        return _concrete_simulation()
+
+
 def concrete_files():
     import contextlib
     import io as _io
@@ -500,6 +573,9 @@ def replay(cex):
                 if not ok:
                     msgs.append(f"{fmt}: {why}")
             return bool(msgs), '; '.join(msgs) or 'round trip ok'
+        if kind == 'simfiles':
+            msgs = concrete_simulation()
+            return bool(msgs), '; '.join(msgs[:4]) or 'all equal'
         if kind == 'files':
             msgs = concrete_files()
             return bool(msgs), '; '.join(msgs[:4]) or 'all equal'
@@ -549,6 +625,17 @@ def main(tier):
                seconds=time.time()-t0, note='; '.join(msgs[:3]),
                key="file round trip of composite objects differs",
                cex=dict(kind='files') if msgs else None))
+    t0 = time.time()
+    msgs = concrete_simulation()
+    run.add(ob("concrete: a Simulation with computed fields, responses, "
+               "misfit and gradient (and a plain copy) saved with "
+               "what=all/computed/plain and loaded again in h5, npz, json: "
+               "usable, equal misfit, gradient, data, fields",
+               'held' if not msgs else 'cex', cls='concrete', group='files',
+               nontrivial=False, seconds=time.time()-t0,
+               note='; '.join(msgs[:4]),
+               key="file round trip of a computed simulation differs",
+               cex=dict(kind='simfiles') if msgs else None))
     run.bounds = dict(structures=snames, key_length="1..4 characters, any "
                       "characters", depth="<= 3", value_kinds=list(VALUES))
     run.assumptions = [
